@@ -52,7 +52,7 @@ fn helper(slot: usize) {
 
 fn worker(slot: usize, iters: u64, seed: u64) {
     TID[slot].store(gettid(), Ordering::SeqCst);
-    let mut rng = seed.wrapping_mul(6364136223846793005).wrapping_add(slot as u64 * 1442695040888963407 + 1);
+    let mut rng = seed.wrapping_mul(6364136223846793005).wrapping_add((slot as u64).wrapping_mul(1442695040888963407).wrapping_add(1));
     let mut acc = slot as u64;
     let mut child = None;
     for i in 0..iters {
